@@ -13,7 +13,7 @@ P2 creation records (constraints, variables, objectives, NL items);
 P3 lazily exported link entries are flushed before the file is closed.
 """
 import re, hashlib
-from ..cfg import Facts, kids, strip, walk, cv, render, call_args, switch_sections
+from ..cfg import Facts, kids, strip, walk, cv, render, call_args, call_object, switch_sections
 from ..cfg import short_loc as _short_loc
 from ..facts import export, export_many, AnalysisBroken
 
@@ -568,8 +568,36 @@ def run(rep, ctx):
         res = [v for s in top if s["k"] == "DeclStmt" for v in kids(s) if v["k"] == "VarDecl" and "basic_string<" in (v.get("ct") or "")]
         loops = [s for s in top if s["k"] in ("CXXForRangeStmt", "ForStmt")]
         rets = [s for s in top if s["k"] == "ReturnStmt"]
+        # early exits that bypass the per-character body
+        all_rets = [x for x in f.walk() if x["k"] == "ReturnStmt"]
+        early = [x for x in all_rets if not any(x is t_ for t_ in rets)]
+        for er in early:
+            conds = [(f.nodes[cid], pol) for cid, pol in f.cfg.facts_at(er)]
+            lit = None
+            for cn, pol in conds:
+                cn = strip(cn)
+                if cn["k"] in ("BinaryOperator", "CXXOperatorCallExpr") and cn.get("op") in ("==", "!="):
+                    sides = kids(cn) if cn["k"] == "BinaryOperator" else call_args(cn)
+                    calls_ = [y for sd in sides for y in walk(sd) if y["k"] == "CXXMemberCallExpr" and (y.get("callee") or "").endswith("::find_first_of")]
+                    npos = any("npos" in render(sd) for sd in sides)
+                    if calls_ and npos and ((cn["op"] == "==") == bool(pol)):
+                        sl = [y for y in walk(calls_[0]) if y["k"] == "StringLiteral"]
+                        if sl and render(call_object(calls_[0])) == (f.params[0]["name"] if f.params else None):
+                            lit = sl[0].get("v", "")
+            if lit is None:
+                raise AnalysisBroken("C20.E1: EscapeString returns early at %s under a condition the analysis does not model" % short_loc(er.get("l")))
+            need = set(range(0x20)) | {0x22, 0x5c}
+            have = {ord(ch) for ch in lit}
+            missing = sorted(need - have)
+            e1.check(not missing, "fast-path|%s" % short_loc(er.get("l")).split(":")[-1], short_loc(er.get("l")),
+                     "the unescaped fast path is taken only when no character needs escaping",
+                     "a string is returned unescaped when it contains none of %r, but %d byte values that need escaping are not in that set (e.g. 0x%02x): "
+                     "a name with such a control character gives a line that is not valid JSON" % (lit, len(missing), missing[0] if missing else 0))
         if len(res) != 1 or len(loops) != 1 or len(rets) != 1 or top[-1]["k"] != "ReturnStmt":
             raise AnalysisBroken("C20.E1: EscapeString is not of the form `result; for (c : s) ...; return result`")
+        other = [s_ for s_ in top if s_["k"] not in ("DeclStmt", "CXXForRangeStmt", "ForStmt", "ReturnStmt", "IfStmt") and not (s_["k"] in ("CXXMemberCallExpr", "ExprWithCleanups") and "reserve" in render(s_))]
+        if other:
+            raise AnalysisBroken("C20.E1: statement `%s` in EscapeString outside the fragment" % render(other[0])[:60])
         rdecl = res[0]["declId"]
         lp = loops[0]
         if lp["k"] != "CXXForRangeStmt":
